@@ -205,6 +205,15 @@ def _analyse_unit(unit, gen_dir, tier, canary=False, extra_fns=(), drop_hints=()
     text = "\n".join(g.lines)
     with open(path, "w") as f:
         f.write(text)
+    # loop annotations (invariants, ghost updates at loop start / end) were written for a particular loop STRUCTURE of each function;
+    # contracts/loopforms.json records it (keywords in textual order, generated from the unchanged tree by vx/mkloopforms.py). If
+    # the structure differs now (`while c {..}` became `loop { if !c { break } .. }`, a loop was added or removed) the annotations
+    # may no longer mean what they meant: a failing obligation of that function is then `hint-lost` (undecided), never VIOLATION
+    base = load_json(os.path.join(ROOT, "contracts", "loopforms.json"), {})
+    for f in g.functions:
+        want = base.get(f"{unit}::{f['name']}")
+        if f.get("loop_annotated") and want is not None and want != f.get("loopform"):
+            f["hint_lost"].append(f"R10: loop structure changed (annotated for {want}, found {f.get('loopform')})")
     me = 20 if tier == "thorough" else 10
     r = run_verus(path, me)
     ur = UnitResult()
